@@ -228,6 +228,20 @@ pub fn c08(thorough: bool) -> Vec<Part> {
         f.max_depth = 80;
         cfgs.push(f);
     }
+    {
+        // G: a header line of exactly the line limit, cut between its CR and its LF
+        let bs = crate::connx::buffer_size();
+        let mut head = b"GET /c0/r0 HTTP/1.1\r\n".to_vec();
+        let mut line = b"X-fill: ".to_vec();
+        line.extend(std::iter::repeat(b'v').take(bs - 2 - line.len()));
+        line.extend_from_slice(b"\r\n");
+        let cut = head.len() + line.len() - 1;
+        head.extend_from_slice(&line);
+        head.extend_from_slice(b"\r\n");
+        let mut g = SrvCfg::base("C08", "a header line of exactly the line limit, cut between CR and LF (request line in an earlier segment)", vec![ClientCfg::well_behaved(vec![head[..22].to_vec(), head[22..cut].to_vec(), head[cut..].to_vec(), tagged_get(0, 1)])]);
+        g.closure_all = true;
+        cfgs.push(g);
+    }
     if thorough {
         let mut pair2 = tagged_get(2, 0);
         pair2.extend_from_slice(&tagged_put(2, 1, b"zz"));
@@ -729,6 +743,21 @@ pub fn c10(thorough: bool) -> Vec<Part> {
             a
         };
         let mut cfg = SrvCfg::base("C10", "clients hanging up with an unwritten interim response (Expect head alone / behind a complete request)", vec![est, mk(vec![tagged_expect_head(1, 0, 3)]), mk(vec![seg])]);
+        cfg.release_check = true;
+        cfg.closure_all = true;
+        cfg.max_outstanding_for_respond = 2;
+        explore(&mut part, &cfg, 300_000, if thorough { 600.0 } else { 40.0 });
+    }
+    {
+        // a client that half-closes (shutdown WR) at any time, also with an answer supplied but not yet written
+        let mut est = ClientCfg::well_behaved(vec![tagged_get(0, 0)]);
+        est.preconnected = true;
+        let mut a = ClientCfg::adversary(vec![tagged_get(1, 0), tagged_get(1, 1)]);
+        a.can_close = false;
+        a.can_shut_rd = false;
+        a.can_shut_wr = true;
+        a.reads = true;
+        let mut cfg = SrvCfg::base("C10", "a client that shuts down its write side at any time (answers supplied before / after)", vec![est, a]);
         cfg.release_check = true;
         cfg.closure_all = true;
         cfg.max_outstanding_for_respond = 2;
